@@ -447,8 +447,29 @@ def r8_cache_levels(idx, r):
             cc = [c for c in iter_calls(f.node) if dotted(c.func) in ("self._setCache", "self._getCached") and c.args]
             if not cc or f.name in ("_setCache", "_getCached"):
                 continue
+            # the names the stored value is computed from (closure over the assignments and loops of the method)
+            feeds = set()
+            for c in cc:
+                if dotted(c.func) == "self._setCache" and len(c.args) == 2:
+                    feeds |= {x.id for x in ast.walk(c.args[1]) if isinstance(x, ast.Name)}
+            grew = True
+            while grew:
+                grew = False
+                for nd in walk_local(f.node):
+                    tgt, src = [], []
+                    if isinstance(nd, ast.Assign):
+                        tgt, src = nd.targets, [nd.value]
+                    elif isinstance(nd, (ast.AugAssign, ast.AnnAssign)) and nd.value is not None:
+                        tgt, src = [nd.target], [nd.value]
+                    elif isinstance(nd, ast.For):
+                        tgt, src = [nd.target], [nd.iter]
+                    if any(isinstance(x, ast.Name) and x.id in feeds for t in tgt for x in ast.walk(t)):
+                        new = {x.id for e in src for x in ast.walk(e) if isinstance(x, ast.Name)} - feeds
+                        if new:
+                            feeds |= new
+                            grew = True
             for prm in f.params()[1:]:
-                if not any(isinstance(x, ast.Name) and x.id == prm and isinstance(x.ctx, ast.Load) for x in walk_local(f.node)):
+                if prm not in feeds:
                     continue
                 for c in cc:
                     names = {x.id for x in ast.walk(c.args[0]) if isinstance(x, ast.Name)}
@@ -636,6 +657,10 @@ def r15_memo_and_mass_vector(idx, r):
             sets = [c for c in iter_calls(f.node) if dotted(c.func) == "self._setCache" and len(c.args) == 2]
             gets = [c for c in iter_calls(f.node) if dotted(c.func) == "self._getCached"]
             if not sets or not gets or f.name in ("_setCache", "_getCached"):
+                continue
+            # only methods that answer a hit with the cached object itself: `x = self._getCached(k); if x: return x`
+            hitnames = {s_.node.id for s_ in iter_stores(f.node) if s_.kind == "assign" and isinstance(s_.node, ast.Name) and isinstance(s_.value, ast.Call) and dotted(s_.value.func) == "self._getCached"}
+            if not any(isinstance(x, ast.Return) and x.value is not None and (norm(x.value) in hitnames or (isinstance(x.value, ast.Call) and dotted(x.value.func) == "self._getCached")) for x in walk_local(f.node)):
                 continue
             for c in sets:
                 n += 1
